@@ -44,29 +44,83 @@ def sha_files(paths, extra=""):
 # ----------------------------------------------------------------------------
 # Coq
 
+GENERATORS = [("constants", "src_constants.py"), ("ast_translation", "ast_translate.py"),
+              ("ast_translation_checked64", "ast_translate64.py"), ("ast_translation_posix_parser", "ast_translate_ptr.py"),
+              ("ast_translation_fixed_and_format_output", "ast_translate_out.py"),
+              ("ast_translation_zone_queries", "ast_translate_zone.py")]
+GENERATED = ["SrcConstants.v", "Translated.v", "Source64.v", "SourcePosix.v", "SourceFmtParse.v", "SourceDecode.v",
+             "SourceFixed.v", "SourceFmtOut.v", "SourceZone.v"]
+
+
 def regen_constants():
+    """Re-derive every source-derived Coq file from /repo's CURRENT working tree (six generators, ~45 s of clang AST
+    dumps).  The result is a pure function of the sources, the generators and the generated files themselves, so it is
+    memoised on the SHA-256 of all of those: an edited tree (or a tampered generated file) always regenerates."""
+    import glob
+    srcs = sorted(glob.glob(os.path.join(REPO, "src", "*")) + glob.glob(os.path.join(REPO, "include", "cctz", "*")) +
+                  glob.glob(os.path.join(VERIF, "gen", "*.py")))
+    srcs = [p for p in srcs if os.path.isfile(p)]
+    outs = [os.path.join(COQ, g) for g in GENERATED]
+    stamp_path = os.path.join(COQ, ".gen_stamp.json")
     with CoqLock():
-        r = sh([sys.executable, os.path.join(VERIF, "gen", "src_constants.py")])
-        r2 = sh([sys.executable, os.path.join(VERIF, "gen", "ast_translate.py")])
-        r3 = sh([sys.executable, os.path.join(VERIF, "gen", "ast_translate64.py")])
-        r4 = sh([sys.executable, os.path.join(VERIF, "gen", "ast_translate_ptr.py")])
-    try:
-        st = json.loads(r.stdout.strip().splitlines()[-1])
-    except Exception:
-        st = {"error": r.stdout[-500:]}
-    try:
-        st["ast_translation"] = json.loads(r2.stdout.strip().splitlines()[-1])
-    except Exception:
-        st["ast_translation"] = {"error": r2.stdout[-300:]}
-    try:
-        st["ast_translation_checked64"] = json.loads(r3.stdout.strip().splitlines()[-1])
-    except Exception:
-        st["ast_translation_checked64"] = {"error": r3.stdout[-300:]}
-    try:
-        st["ast_translation_posix_parser"] = json.loads(r4.stdout.strip().splitlines()[-1])
-    except Exception:
-        st["ast_translation_posix_parser"] = {"error": r4.stdout[-300:]}
+        if all(os.path.exists(o) for o in outs):
+            key = sha_files(srcs + outs)
+            try:
+                st = json.load(open(stamp_path))
+                if st.get("key") == key:
+                    r = dict(st["status"])
+                    r["memoised"] = "sources, generators and generated files unchanged since the last regeneration (sha256 %s)" % key
+                    return r
+            except Exception:
+                pass
+        st = {}
+        for name, script in GENERATORS:
+            r = sh([sys.executable, os.path.join(VERIF, "gen", script)])
+            try:
+                val = json.loads(r.stdout.strip().splitlines()[-1])
+            except Exception:
+                val = {"error": r.stdout[-500:]}
+            if name == "constants":
+                st.update(val if isinstance(val, dict) else {"error": str(val)})
+            else:
+                st[name] = val
+        if all(os.path.exists(o) for o in outs):
+            try:
+                json.dump({"key": sha_files(srcs + outs), "status": st}, open(stamp_path, "w"))
+            except Exception:
+                pass
     return st
+
+
+# which properties carry tie obligations over which generator's output: when the generator can no longer translate a
+# function of the CURRENT source (it then keeps its previous output) the tie theorems speak about stale text, so the
+# property is no longer shown for the code as it is now - that is an undischarged obligation, not a silent fallback
+TIE_PROPERTIES = {
+    "ast_translation": ["C04", "C05", "C17"],
+    "ast_translation_checked64": ["C04", "C05", "C17", "C01"],
+    "ast_translation_posix_parser": ["C16", "C12", "C09", "C01"],
+    "ast_translation_fixed_and_format_output": ["C15", "C08"],
+    "ast_translation_zone_queries": ["C01", "C02", "C11", "C14"],
+}
+
+
+def stale_ties(const_status, pid):
+    """names of source functions whose translation failed in this run and that a tie obligation of `pid` rests on"""
+    out = []
+    def scan(name, st):
+        if not isinstance(st, dict):
+            return
+        if st.get("error"):
+            out.append("%s: generator error %s" % (name, str(st["error"])[-120:]))
+        for fn, why in (st.get("untranslated") or {}).items():
+            out.append("%s: %s untranslated (%s)" % (name, fn, str(why)[:100]))
+        for k, sub in st.items():
+            if isinstance(sub, dict) and k not in ("untranslated",):
+                scan(name + "/" + k, sub)
+    for gen, props in TIE_PROPERTIES.items():
+        if pid in props:
+            scan(gen, const_status.get(gen))
+    return out
 
 
 class CoqLock:
